@@ -111,7 +111,7 @@ def instances_for(prop, tier, seed):
         out.append({'family': 'art', 'size': 3, 'limit': 2, 'two': True})
         out.append({'family': 'art', 'size': 5, 'limit': 3, 'two': True})
     if prop == 'C18':
-        for verdict in ('OK', 'ACK', 'close', 'garbage'):
+        for verdict in ('OK', 'ACK', 'listACK', 'close', 'garbage'):
             out.append({'family': 'password', 'verdict': verdict})
         # the optional-password entry point: a given password (also the empty one) is sent, None sends none
         for verdict in ('OK', 'ACK'):
@@ -530,7 +530,7 @@ def run_password(P, res, pl):
                 bad = 'lines written after a rejected password: %s' % lines[1:]
             else:
                 e = r.fields[0]
-                want = 'IncorrectPassword' if verdict == 'ACK' else 'ProtocolError'
+                want = 'IncorrectPassword' if verdict in ('ACK', 'listACK') else 'ProtocolError'
                 if e.variant != want:
                     bad = 'verdict %s yields %s' % (verdict, e.variant)
         res.cls('password ' + verdict, nontrivial=True)
@@ -619,7 +619,7 @@ def replay_for(prop, rec):
             return (conn != 'Ok' or lines[:1] != ['idle']), 'native: connect=%s lines=%s' % (conn, lines)
         first = 'password "hunter 2"' if pw else 'password '
         bad = (not lines or lines[0] != first or (v == 'OK' and (conn != 'Ok' or lines[1:2] != ['idle'])) or
-               (v != 'OK' and (not conn.startswith('Err') or len(lines) != 1 or (('IncorrectPassword' in conn) != (v == 'ACK')))))
+               (v != 'OK' and (not conn.startswith('Err') or len(lines) != 1 or (('IncorrectPassword' in conn) != (v in ('ACK', 'listACK'))))))
         return bad, 'native: connect=%s lines=%s' % (conn, lines)
     if pl.get('family') == 'art':
         src = inp.get('source', 0)
